@@ -6,7 +6,8 @@
    the real decomposition returned, and the driver runs this model with exactly those values as the oracle's answer).
    std::sqrt is the parameter [sq]; the model carries the GHOST list of the values the run took the square root of (not in the
    C++): the theorems ask sq to be exact on exactly these values.  epsm = std::numeric_limits<double>::epsilon(), cut = the
-   double 1.e-15 of encoder()/decoder().
+   double 1.e-15 of encoder()/decoder().  Qred (reduction to lowest terms, Qred q == q) only keeps the numbers of the extracted
+   program small; it has no counterpart in the C++ and no influence on the value.
 
    setData, AUTO:  m_n > m_l  ->  SMALL_SAMPLE, else STANDARD.
      STANDARD      S = covariance (meanvar, matrix form, 1/n);  m_eigenvectors = eigen.Q(); m_eigenvalues = eigen.D().
@@ -59,7 +60,7 @@ Fixpoint best_scan (res : vecq) (n : nat) : nat * Q :=
 
 (* direction -= inner_prod(direction, column k) * column k *)
 Definition mgs_step (d : nat) (V : matq) (k : nat) (dir : vecq) : vecq :=
-  let c := sumn d (fun j => dir j * V j k) in memoq d (fun j => dir j - c * V j k).
+  let c := sumn d (fun j => dir j * V j k) in memoq d (fun j => Qred (dir j - c * V j k)).
 Fixpoint mgs_pass (d : nat) (V : matq) (i : nat) (dir : vecq) : vecq :=
   match i with O => dir | S i' => mgs_step d V i' (mgs_pass d V i' dir) end.
 
@@ -78,14 +79,14 @@ Definition ss_step (d l : nat) (thr : Q) (i : nat) (st : pstate) : pstate :=
     if qltb thr (ev i) then
       let v := gram d V i i in
       let nr := sq v in
-      (memo2q d l (set_col V i (fun j => V j i / nr)), ev, met ++ [v])
+      (memo2q d l (set_col V i (fun j => Qred (V j i / nr))), ev, met ++ [v])
     else
       let res := memoq d (fun j => 1 - sumn i (fun k => V j k * V j k)) in
       let best := fst (best_scan res d) in
       let dir := mgs_pass d V i (mgs_pass d V i (fun j => delta best j)) in
       let v := sumn d (fun j => dir j * dir j) in
       let nr := sq v in
-      (memo2q d l (set_col V i (fun j => dir j / nr)), set_at ev i 0, met ++ [v])
+      (memo2q d l (set_col V i (fun j => Qred (dir j / nr))), set_at ev i 0, met ++ [v])
   end.
 Fixpoint ss_loop (d l : nat) (thr : Q) (n : nat) (st : pstate) : pstate :=
   match n with O => st | S n' => ss_step d l thr n' (ss_loop d l thr n' st) end.
